@@ -28,6 +28,8 @@ func runC08(p *eng.Prog, r *eng.Report, tier string) {
 	// the whole element (E-dec3/E-dec6), otherwise Serve ends with a decoding error
 	stanzaIsTable(c, "C08.12")
 	serveCtxRootedInBackground(c, "C08.16")
+	idTypFromOwnAttributes(c, "C08.18")
+	c06WaiterWithdrawnOnEveryExit(c, "C08.19")
 	c04AdaptersReportEveryFault(c, "C08.17")
 	depthCountersDoNotWrap(c, "C08.15")
 	// C08.14 "once per top-level element": a response whose waiter has gone
